@@ -119,6 +119,20 @@ class FuncV:
         return f"<function {self.name}>"
 
 
+class BoundV:
+    """A bound method of a concrete list / dict (`add = xs.append`)."""
+
+    def __init__(self, recv, name):
+        self.recv, self.name = recv, name
+
+    def __repr__(self):
+        return f"<bound {self.name}>"
+
+
+LIST_METHODS = {"append", "insert", "extend", "pop", "reverse", "copy", "index", "count", "clear", "remove"}
+DICT_METHODS = {"get", "items", "keys", "values", "update", "setdefault", "pop", "copy", "clear", "popitem"}
+
+
 class Env:
     def __init__(self, parent=None):
         self.vars: Dict[str, Any] = {}
@@ -157,12 +171,13 @@ def norm(v):
 
 
 SLOTS = ("output_coercer", "input_coercer", "literal_coercer")
-BUILTINS = {"partial", "reduce", "reversed", "list", "tuple", "isinstance", "getattr", "hasattr", "enumerate", "zip", "bool", "len", "iter", "next", "callable"}
+BUILTINS = {"str", "repr", "dict", "set", "partial", "reduce", "reversed", "list", "tuple", "isinstance", "getattr", "hasattr", "enumerate", "zip", "bool", "len", "iter", "next", "callable"}
 
 
 class Interp:
-    def __init__(self, repo, module, fuel: int = 4000, classes=None, interpret=()):
+    def __init__(self, repo, module, fuel: int = 4000, classes=None, interpret=(), stubs=None):
         self.repo, self.module, self.fuel = repo, module, fuel
+        self.stubs = stubs or {}           # dotted name -> python callable(args, kwargs) modelling a library function
         self.genv = Env()
         self.classes = classes or {}       # class name -> model.Class whose methods may be interpreted
         self.interpret = set(interpret)    # dotted names of small library functions to interpret rather than keep symbolic
@@ -195,11 +210,19 @@ class Interp:
         if isinstance(v, RecV):
             if name in v.attrs:
                 return v.attrs[name]
+            if v.attrs.get("_strict") and not name.startswith("__"):
+                c0 = self.classes.get(v.cls)
+                if c0 is None or self.repo.find_method(c0, name) is None:
+                    raise PyRaise("AttributeError", name)
             c = self.classes.get(v.cls)
             m = self.repo.find_method(c, name) if c is not None else None
             if m is not None:
                 return PartialV(FuncV(m.node, self.genv, m.qualname), (v,), {})
             return Sym(f"{v!r}.{name}")
+        if isinstance(v, list) and name in LIST_METHODS:
+            return BoundV(v, name)
+        if isinstance(v, dict) and name in DICT_METHODS:
+            return BoundV(v, name)
         if isinstance(v, (list, tuple, dict, str, int, bool, type(None))):
             raise PyRaise("AttributeError", name)
         if isinstance(v, PartialV):
@@ -219,6 +242,9 @@ class Interp:
             return v
         m = self.module
         if name in m.funcs and m.funcs[name].parent is None and m.funcs[name].cls is None:
+            d0 = self.repo.resolve_name(m, name)
+            if d0 in self.stubs:
+                return Sym(d0)
             return FuncV(m.funcs[name].node, self.genv, name)
         if name in ("None", "True", "False"):
             return {"None": None, "True": True, "False": False}[name]
@@ -230,6 +256,8 @@ class Interp:
         self.fuel -= 1
         if self.fuel <= 0:
             raise Unsupported("evaluation does not terminate within the budget")
+        if isinstance(f, BoundV):
+            return self.method(f.recv, f.name, list(args), dict(kwargs), node)
         if isinstance(f, PartialV):
             return self.call(f.func, list(f.args) + list(args), {**f.kwargs, **kwargs}, node)
         if isinstance(f, LambdaV):
@@ -248,10 +276,12 @@ class Interp:
             except _Return as r:
                 return env.vars["__yields__"] if is_gen else r.value
             return env.vars["__yields__"] if is_gen else None
+        if isinstance(f, Sym) and f.text in self.stubs:
+            return self.stubs[f.text](args, kwargs)
         if isinstance(f, Sym) and f.text in self.interpret:
             target = self.repo.lookup(f.text)
             if target is not None and hasattr(target, "node") and isinstance(target.node, ast.FunctionDef):
-                sub = Interp(self.repo, target.module, self.fuel, self.classes, self.interpret)
+                sub = Interp(self.repo, target.module, self.fuel, self.classes, self.interpret, self.stubs)
                 sub.genv = Env()
                 r = sub.call(FuncV(target.node, sub.genv, target.name), args, kwargs, node)
                 self.fuel = sub.fuel
@@ -259,6 +289,75 @@ class Interp:
         if isinstance(f, (Sym, App)):
             return App(f, list(args), dict(kwargs))
         raise Unsupported(f"call of {type(f).__name__} at line {getattr(node, 'lineno', '?')}")
+
+    def method(self, recv, m, args, kwargs, node):
+        if isinstance(recv, list):
+            if m == "append":
+                recv.append(args[0])
+                return None
+            if m == "insert":
+                recv.insert(args[0], args[1])
+                return None
+            if m == "extend":
+                recv.extend(list(args[0]))
+                return None
+            if m == "pop":
+                try:
+                    return recv.pop(*args)
+                except IndexError:
+                    raise PyRaise("IndexError")
+            if m == "reverse":
+                recv.reverse()
+                return None
+            if m == "copy":
+                return list(recv)
+            if m == "clear":
+                recv.clear()
+                return None
+            if m in ("index", "count", "remove"):
+                hits = [i for i, x in enumerate(recv) if norm(x) == norm(args[0])]
+                if m == "count":
+                    return len(hits)
+                if not hits:
+                    raise PyRaise("ValueError")
+                if m == "index":
+                    return hits[0]
+                del recv[hits[0]]
+                return None
+            raise Unsupported(f"list.{m}")
+        if isinstance(recv, dict):
+            if m == "get":
+                return recv.get(args[0], args[1] if len(args) > 1 else None)
+            if m in ("items", "keys", "values"):
+                return [tuple(x) if m == "items" else x for x in getattr(recv, m)()]
+            if m == "update":
+                src = args[0] if args else {}
+                if isinstance(src, dict):
+                    recv.update(src)
+                else:
+                    for k, v in list(src):
+                        recv[k] = v
+                recv.update(kwargs)
+                return None
+            if m == "setdefault":
+                return recv.setdefault(args[0], args[1] if len(args) > 1 else None)
+            if m == "pop":
+                if args[0] in recv:
+                    return recv.pop(args[0])
+                if len(args) > 1:
+                    return args[1]
+                raise PyRaise("KeyError")
+            if m == "popitem":
+                if not recv:
+                    raise PyRaise("KeyError")
+                return tuple(recv.popitem())
+            if m == "copy":
+                return dict(recv)
+            if m == "clear":
+                recv.clear()
+                return None
+            raise Unsupported(f"dict.{m}")
+        raise Unsupported(f"method {m}")
 
     def bind(self, a: ast.arguments, args, kwargs, env, defenv):
         params = [x.arg for x in a.posonlyargs + a.args]
@@ -308,6 +407,14 @@ class Interp:
             for x in seq:
                 acc = self.call(fn, [acc, x], {}, node)
             return acc
+        if name in ("str", "repr"):
+            return args[0] if isinstance(args[0], str) else Sym(f"{name}({args[0]!r})")
+        if name == "dict":
+            d = dict(args[0]) if args else {}
+            d.update(kwargs)
+            return d
+        if name == "set":
+            return list(args[0]) if args else []
         if name == "reversed":
             return list(reversed(list(args[0])))
         if name in ("list", "tuple"):
@@ -352,9 +459,7 @@ class Interp:
                 return obj.cls in names or bool(set(obj.bases) & names)
             if isinstance(obj, (Sym, App)):
                 names = {c.text.rsplit(".", 1)[-1] for c in classes if isinstance(c, Sym)}
-                if names and all(n.endswith(("Exception", "Error")) for n in names):
-                    return False  # a symbolic value is a value, not a raised failure
-                raise Unsupported("isinstance of a symbolic value")
+                return False  # an opaque symbol is an instance of none of the classes a builder asks about (not a failure, not a partial, not a container)
             if isinstance(obj, PartialV):
                 return any(isinstance(c, Sym) and c.text.rsplit(".", 1)[-1] == "partial" for c in classes)
             if obj is None or isinstance(obj, (bool, int, str, list, tuple, dict)):
@@ -401,6 +506,20 @@ class Interp:
             return v
         if isinstance(e, ast.UnaryOp) and isinstance(e.op, ast.Not):
             return not self.truth(self.eval(e.operand, env))
+        if isinstance(e, ast.UnaryOp) and isinstance(e.op, (ast.USub, ast.UAdd)):
+            v = self.eval(e.operand, env)
+            if isinstance(v, int) and not isinstance(v, bool):
+                return -v if isinstance(e.op, ast.USub) else v
+            raise Unsupported("arithmetic on an abstract value")
+        if isinstance(e, ast.BinOp) and isinstance(e.op, (ast.Add, ast.Sub)):
+            a, b = self.eval(e.left, env), self.eval(e.right, env)
+            if isinstance(a, int) and isinstance(b, int) and not isinstance(a, bool) and not isinstance(b, bool):
+                return a + b if isinstance(e.op, ast.Add) else a - b
+            if isinstance(e.op, ast.Add) and isinstance(a, list) and isinstance(b, list):
+                return a + b
+            if isinstance(e.op, ast.Add) and isinstance(a, tuple) and isinstance(b, tuple):
+                return a + b
+            raise Unsupported("arithmetic on an abstract value")
         if isinstance(e, ast.Compare):
             left = self.eval(e.left, env)
             for op, c in zip(e.ops, e.comparators):
@@ -460,6 +579,22 @@ class Interp:
 
             gen(0, env)
             return out
+        if isinstance(e, ast.DictComp):
+            d = {}
+
+            def dgen(i, env2):
+                if i == len(e.generators):
+                    d[self.eval(e.key, env2)] = self.eval(e.value, env2)
+                    return
+                g = e.generators[i]
+                for item in list(self.eval(g.iter, env2)):
+                    env3 = Env(env2)
+                    self.assign(g.target, item, env3)
+                    if all(self.truth(self.eval(c, env3)) for c in g.ifs):
+                        dgen(i + 1, env3)
+
+            dgen(0, env)
+            return d
         if isinstance(e, ast.Subscript):
             v = self.eval(e.value, env)
             if isinstance(e.slice, ast.Slice):
@@ -497,33 +632,8 @@ class Interp:
             if isinstance(e.func, ast.Attribute):
                 recv = self.eval(e.func.value, env)
                 m = e.func.attr
-                if isinstance(recv, list):
-                    if m == "append":
-                        recv.append(args[0])
-                        return None
-                    if m == "insert":
-                        recv.insert(args[0], args[1])
-                        return None
-                    if m == "extend":
-                        recv.extend(list(args[0]))
-                        return None
-                    if m == "pop":
-                        try:
-                            return recv.pop(*args)
-                        except IndexError:
-                            raise PyRaise("IndexError")
-                    if m == "reverse":
-                        recv.reverse()
-                        return None
-                    if m == "copy":
-                        return list(recv)
-                    raise Unsupported(f"list.{m}")
-                if isinstance(recv, dict):
-                    if m == "get":
-                        return recv.get(args[0], args[1] if len(args) > 1 else None)
-                    if m in ("items", "keys", "values"):
-                        return [tuple(x) if m == "items" else x for x in getattr(recv, m)()]
-                    raise Unsupported(f"dict.{m}")
+                if isinstance(recv, (list, dict)):
+                    return self.method(recv, m, args, kwargs, e)
                 return self.call(self.attr(recv, m, e), args, kwargs, e)
             return self.call(self.eval(e.func, env), args, kwargs, e)
         if isinstance(e, ast.Yield):
@@ -553,11 +663,22 @@ class Interp:
                 raise PyRaise("ValueError", "unpack")
             for t, v in zip(target.elts, vals):
                 self.assign(t, v, env)
+        elif isinstance(target, ast.Attribute):
+            recv = self.eval(target.value, env)
+            if isinstance(recv, RecV):
+                recv.attrs[target.attr] = value
+            else:
+                raise Unsupported("attribute store into an abstract value")
         elif isinstance(target, ast.Subscript):
             recv = self.eval(target.value, env)
             k = self.eval(target.slice, env)
             if isinstance(recv, (list, dict)):
-                recv[k] = value
+                try:
+                    recv[k] = value
+                except IndexError:
+                    raise PyRaise("IndexError", "list assignment index out of range")
+                except TypeError:
+                    raise PyRaise("TypeError", "unhashable key or bad index")
             else:
                 raise Unsupported("store into an abstract value")
         else:
